@@ -29,7 +29,7 @@ func c11Gen(t *rapid.T) interface{} {
 		c.Corpus = smallCorpusAround(t, c.X.docs())
 	}
 	if lib.IntN(t, 0, 2, "withXforms") == 0 {
-		c.Ts = genXforms(t, []string{"upper", "altcase", "indent", "blankline", "decorate", "trailing", "crlf", "multiblank"}, 2)
+		c.Ts = genXforms(t, []string{"upper", "altcase", "indent", "blankline", "decorate", "trailing", "crlf", "multiblank", "dotdot", "dotdot"}, 2)
 	}
 	return c
 }
@@ -198,7 +198,7 @@ func c11Enum(yield func(interface{}) bool) {
 
 func TestVerif_C11(t *testing.T) {
 	lib.Run(t, lib.Spec{ID: "C11", Part: "generated",
-		Rule: "X = generated license-bearing input (documents in context, scenario files, edited / truncated / concatenated texts), optionally after 1-2 presentation changes (decoration, case, indentation, blank lines, CRLF); oracle (a): the k-th line of Normalize(X), lower-cased and mapped through an independent copy of the spelling table, equals the words Match attributes to line k; (b): licenses of Match(Normalize(X)) == Match(X) incl. token spans, lines and TotalInputLines; inputs in an open known-finding class (F11 https, F12 trailing-hyphen digit token) are excluded and counted; non-trivial = X has a license match and Normalize(X) != X",
+		Rule: "X = generated license-bearing input (documents in context, scenario files, edited / truncated / concatenated texts), optionally after 1-2 presentation changes (decoration, case, indentation, blank lines, CRLF, doubled period after numbers); oracle (a): the k-th line of Normalize(X), lower-cased and mapped through an independent copy of the spelling table, equals the words Match attributes to line k; (b): licenses of Match(Normalize(X)) == Match(X) incl. token spans, lines and TotalInputLines; inputs in an open known-finding class (F11 https, F12 trailing-hyphen digit token) are excluded and counted; non-trivial = X has a license match and Normalize(X) != X",
 		New:  func() interface{} { return &c11Case{} }, Gen: c11Gen, Check: c11Check})
 }
 
